@@ -93,6 +93,8 @@ impl<'a, F> DataFrameEmitter<'a, F> where F: FnMut(Box<[u8]>) {
 
         let frame_id = self.frame_queue.next_id();
         let nonce = rand::random();
+        #[cfg(uflow_verif)]
+        let nonce: bool = crate::verif::nonce_bit(frame_id, nonce);
 
         let mut next_frame = InProgressDataFrame {
             fbuilder: DataFrameBuilder::new(frame_id, nonce),
